@@ -29,8 +29,17 @@ const (
 	// nats-server expires a message when its age timer fires; the first timer is exact, but a re-armed
 	// timer is rounded up to 250ms, so a message lives between MaxAge and MaxAge + ~250ms (measured).
 	marginBefore = 60 * time.Millisecond
-	marginAfter  = 330 * time.Millisecond
 )
+
+// marginAfter: how long after MaxAge a message may still be there. 330ms on a machine that is not
+// overloaded (quick tier: 2 shards); the thorough tier runs 8 servers and 8 x 2 test threads side by side and
+// has seen the server's age timer fire more than 330ms late, so it keeps a wider berth.
+var marginAfter = func() time.Duration {
+	if os.Getenv("VERIF_TIER") == "thorough" {
+		return 900 * time.Millisecond
+	}
+	return 330 * time.Millisecond
+}()
 
 var (
 	srvOnce sync.Once
@@ -476,7 +485,7 @@ func TestC14(t *testing.T) {
 	r := report.New("C14")
 	defer r.Write()
 	r.Rule = "operation sequences (4-30 steps over 3 keys in a fresh memory-storage bucket with MaxAge 200ms on an embedded nats-server, issued through the library's real adapter): Create(v), Update(v, revision in {latest, stale, future, 0}), Get, Delete, DeleteRevision(revision in {latest, stale, future, 0}), sleep past expiry (<=3), Watch, receive-everything on a watcher (calling Updates() before every receive as the watch loop does), stop a watcher, 300 extra Updates() calls; values empty / text / invalid UTF-8 / 64KiB; oracle: after every step the adapter's result equals the reference model's (success, revision, error text, errors.Is/As relations, classification), revisions strictly increase, each watcher receives exactly the model's event queue in order (initial value, nil marker, every change once, deletions as empty values, nothing on expiry) through one stable channel, goroutines with adapter frames do not grow with Updates() calls, and none is left once every watcher of the sequence has been stopped (drained or with events pending, read or never read). Non-trivial = a sequence with a stale-revision Update, a Create after delete or expiry, and a watcher that received >= 3 events; distinct by hash of the sequence."
-	r.Assume("real time against nats-server v2.12.2 / nats.go v1.47.0, memory storage; a message lives between MaxAge and MaxAge+~250ms on the server (age timer granularity), so operations are kept out of the window (age in [MaxAge-60ms, MaxAge+330ms]) in which the outcome is the server's choice; single server (R=1); bucket history 64: with history 1 JetStream itself drops a superseded revision that a lagging watcher has not been sent yet (observed once under load), so 'every change exactly once' is only well-defined within the history depth")
+	r.Assume("real time against nats-server v2.12.2 / nats.go v1.47.0, memory storage; a message lives between MaxAge and MaxAge+~250ms on the server (age timer granularity), so operations are kept out of the window (age in [MaxAge-60ms, MaxAge+330ms]; thorough tier, where 8 servers share the machine: +900ms) in which the outcome is the server's choice; single server (R=1); bucket history 64: with history 1 JetStream itself drops a superseded revision that a lagging watcher has not been sent yet (observed once under load), so 'every change exactly once' is only well-defined within the history depth")
 	judge := func(steps []Step) string {
 		sig, msg, stats := runSequence(steps)
 		if sig == "HARNESS" {
